@@ -48,6 +48,13 @@ type httpResult struct {
 // doRequest drives h.ServeHTTP with a recorder inside a recover. declaredLen
 // <0 sends the body without a Content-Length (a chunked request).
 func doRequest(h http.Handler, method, path string, hdr hdrList, body []byte, declareLen bool) (res httpResult) {
+	return doRequestVia(h, method, path, hdr, body, declareLen, nil)
+}
+
+// doRequestVia is doRequest with the recorder optionally wrapped: the server
+// then talks to wrap(rec), which lets a check observe (or stop at) every
+// ResponseWriter call; the result is still read off the recorder.
+func doRequestVia(h http.Handler, method, path string, hdr hdrList, body []byte, declareLen bool, wrap func(*httptest.ResponseRecorder) http.ResponseWriter) (res httpResult) {
 	req := httptest.NewRequest(method, path, nil)
 	cb := &countingBody{r: bytes.NewReader(body)}
 	if body != nil {
@@ -63,13 +70,17 @@ func doRequest(h http.Handler, method, path string, hdr hdrList, body []byte, de
 		req.Header.Set(kv[0], kv[1])
 	}
 	rec := httptest.NewRecorder()
+	var w http.ResponseWriter = rec
+	if wrap != nil {
+		w = wrap(rec)
+	}
 	func() {
 		defer func() {
 			if rv := recover(); rv != nil {
 				res.Panic = fmt.Sprint(rv)
 			}
 		}()
-		h.ServeHTTP(rec, req)
+		h.ServeHTTP(w, req)
 	}()
 	res.BodyRead = cb.read
 	res.Status = rec.Code
